@@ -31,6 +31,12 @@ impl Command for CommandImpl {
     fn run(&self, context: CommandInvocationContext) -> CommandResult {
         if context.arguments.is_empty() {
             CommandResult::Error("Missing environment variable name.".to_string())
+        } else if context.arguments[0].is_empty()
+            || context.arguments[0].contains('=')
+            || context.arguments[0].contains('\0')
+        {
+            // env::remove_var panics for the names the operating system refuses
+            CommandResult::Error("Invalid environment variable name.".to_string())
         } else {
             env::remove_var(&context.arguments[0]);
 
